@@ -299,6 +299,13 @@ def run_check(mod, tier, seed, only=None):
     common.install_signal_cleanup()
     os.makedirs(EVIDENCE_DIR, exist_ok=True)
     os.makedirs(REPLAY_DIR, exist_ok=True)
+    # replay files of earlier runs of this check are obsolete
+    for fn in os.listdir(REPLAY_DIR):
+        if fn.startswith(mod.ID + '-') and fn.endswith('.json'):
+            try:
+                os.unlink(os.path.join(REPLAY_DIR, fn))
+            except OSError:
+                pass
     workdir = common.scratch('flexsim-%s-' % mod.ID)
     try:
         flex = common.build_flex(workdir, log=log)
